@@ -28,11 +28,11 @@ import (
 func init() {
 	simkit.Register(&simkit.Property{
 		ID: "C04", Level: "exploration", Bubble: true, Run: runC04,
-		Rule: "World C (core flavour) with a Byzantine peer: the receiver's database holds two keyper sets in generated states (member with successful DKG, not a member, no DKG result, failed DKG, restarted DKG whose newest eon has no result; keys already stored, incl. a stored key that is not the valid one). The Byzantine peer publishes 4-16 messages: valid key-shares / keys messages and single- or multi-field mutations (instance id, eon = other set / unknown / 2^63 / 2^64-1, sender index = other member / n / n+1 / 2^32 / 2^64-1, share/key bytes flipped / truncated / empty / of another keyper, identity or eon, identity bytes, order swapped, duplicates, count 0 and max+1, flavour extras, wrong message type on the topic, envelope version). Each goes through the receiver's real combined validator and, if accepted, the real handler, every database round trip being a scheduler step. Oracle: verdict == ref.AcceptShares/AcceptKeys (written from the statement, evaluated on the harness's ground truth); on reject the pgsim database hash is unchanged and the node published nothing; on accept the rows appear; a validator panic is a violation. NOTE: the message dimension is seeded sampling by a simulated faulty party. Non-trivial = a single-field mutation that flips the reference verdict; distinct = distinct trace hashes among those.",
+		Rule: "World C (receiver of core, Gnosis or Shutter-service flavour; for the flavours the Byzantine peer attaches the genuine flavour extra - signatures of the listed keypers over the final message fields - whenever the flavour's own rules can be met, so that the core rule decides) with a Byzantine peer: the receiver's database holds two keyper sets in generated states (member with successful DKG, not a member, no DKG result, failed DKG, restarted DKG whose newest eon has no result; keys already stored, incl. a stored key that is not the valid one). The Byzantine peer publishes 4-16 messages: valid key-shares / keys messages and single- or multi-field mutations (instance id, eon = other set / unknown / 2^63 / 2^64-1, sender index = other member / n / n+1 / 2^32 / 2^64-1, share/key bytes flipped / truncated / empty / of another keyper, identity or eon, identity bytes, order swapped, duplicates, count 0 and max+1, flavour extras, wrong message type on the topic, envelope version). Each goes through the receiver's real combined validator and, if accepted, the real handler, every database round trip being a scheduler step. Oracle: verdict == ref.AcceptShares/AcceptKeys (written from the statement, evaluated on the harness's ground truth); on reject the pgsim database hash is unchanged and the node published nothing; on accept the rows appear; a validator panic is a violation. NOTE: the message dimension is seeded sampling by a simulated faulty party. Non-trivial = a single-field mutation that flips the reference verdict; distinct = distinct trace hashes among those.",
 		Assumptions: []string{"shlib pairing checks are the ground truth for 'cryptographically valid'"},
 		Real:        []string{"p2p.P2PMessaging validators/handlers", "epochkghandler.DecryptionKeyShareHandler/DecryptionKeyHandler", "p2pmsg.Unmarshal/Validate", "keyper/database sqlc", "pgx"},
 		Stub:        []string{"libp2p (simnet)", "PostgreSQL (pgsim)", "DKG (trusted dealer)"},
-		QuickRuns:   500, ThoroughRuns: 60000, QuickMinimize: 60, ThoroughMinimize: 300,
+		QuickRuns:   1500, ThoroughRuns: 60000, QuickMinimize: 60, ThoroughMinimize: 300,
 	})
 }
 
